@@ -93,7 +93,7 @@ func VerifC09_DumpLoadGenCode() {
 		rt.Reach("gencode-end")
 		return
 	}
-	raw := rt.BytesN("raw", 1, 3)
+	raw := rt.BytesN("raw", 0, 3) // including the empty value
 	data, err := Dump(raw, RAW)
 	rt.Assert(err == nil, "raw/dump-ok")
 	rt.Assert(len(data) == len(raw)+1, "raw/len")
